@@ -451,3 +451,18 @@ def commut_sort(name, heads=("Mul::mul", "Add::add", "Mul", "Add")):
             i = k
         return out
     return rec(name)
+
+
+def check_row_decl(prog, res, rule, adt_path, want, fn, where):
+    """the struct that is serialised as one CSV row declares exactly the documented columns: names, order and types
+    (a narrower numeric type rounds the value that is written)"""
+    from .. import pp
+    a = prog.adts.get(adt_path)
+    if a is None:
+        res.violate(rule, fn, "row-decl:missing", "row struct %s not found" % adt_path, where, kind="anchor-missing")
+        return
+    got = [[f["name"], pp.ty(f["ty"])] for f in a["variants"][0]["fields"]]
+    if got == want:
+        res.hit(rule)
+    else:
+        res.violate(rule, fn, "row-decl", "the CSV row struct %s declares %s; the documented columns are %s" % (adt_path.split("::")[-2] + "::Row", got, want), where)
